@@ -15,6 +15,7 @@ import (
 
 	"github.com/modelcontextprotocol/go-sdk/mcp"
 	"github.com/modelcontextprotocol/go-sdk/verif/memhttp"
+	"github.com/modelcontextprotocol/go-sdk/verif/memio"
 	"github.com/modelcontextprotocol/go-sdk/verif/vt"
 	"pgregory.net/rapid"
 )
@@ -365,7 +366,7 @@ func runHTTP(s Script) (res vt.Result) {
 		}
 		allPend = append(allPend, pr.pend...)
 		posts = append(posts, pr)
-		pr.ex = h.post(pr.line)
+		pr.ex = h.post(memio.Respell(pr.line, s.Spell))
 		if pr.ex == nil {
 			res.Failf("step %d: POST %s produced no exchange", step, pr.line)
 			return false
